@@ -85,16 +85,19 @@ fn digest(run: &comp::Run) -> (String, Option<String>) {
 struct Input {
     origin: String,
     toks: Vec<(TKind, String)>,
+    /// separators of the baseline layout (empty = one blank everywhere); templates keep the layout they are written in
+    gaps: Vec<String>,
 }
 
-fn join(toks: &[(TKind, String)], at: Option<(usize, &str)>) -> String {
+fn join(inp: &Input, at: Option<(usize, &str)>) -> String {
+    let toks = &inp.toks;
     let mut s = String::new();
     for (i, (_, t)) in toks.iter().enumerate() {
         s.push_str(t);
         if i + 1 < toks.len() {
             match at {
                 Some((b, sep)) if b == i => s.push_str(sep),
-                _ => s.push(' '),
+                _ => s.push_str(inp.gaps.get(i).map_or(" ", |g| g.as_str())),
             }
         }
     }
@@ -110,8 +113,13 @@ fn skip_boundary(toks: &[(TKind, String)], b: usize) -> bool {
 }
 
 fn check_input(inp: &Input, forms: &[usize], max_boundaries: usize, rng: &mut Rng, rep: &mut Report) {
+    check_input_part(inp, forms, max_boundaries, rng, rep, None)
+}
+
+/// `part` = (k, n): only the boundaries b with b % n == k (lets several workers share one large input)
+fn check_input_part(inp: &Input, forms: &[usize], max_boundaries: usize, rng: &mut Rng, rep: &mut Report, part: Option<(usize, usize)>) {
     let cfg = Cfg::default_cfg();
-    let base_text = join(&inp.toks, None);
+    let base_text = join(&inp, None);
     let base = comp::rasn(&[base_text.clone()], &cfg);
     let (bstatus, bdigest) = digest(&base);
     if bstatus == "Panic" {
@@ -119,11 +127,14 @@ fn check_input(inp: &Input, forms: &[usize], max_boundaries: usize, rng: &mut Rn
         return;
     }
     rep.count(&format!("baseline[{}]", if bstatus.starts_with("Ok") { "Ok" } else { "Err" }), 1);
+    if inp.origin.starts_with("T(") && part.map_or(true, |(k, _)| k == 0) {
+        rep.count(&format!("template_baseline[{} {}]", inp.origin, one_line(&base.out.brief(), 150)), 1);
+    }
     if !bstatus.starts_with("Ok") && inp.origin.starts_with("G(") && std::env::var("VERIF_DEBUG").is_ok() {
         eprintln!("G baseline Err: {} :: {}\n{}", inp.origin, base.out.brief(), base_text);
     }
     let nb = inp.toks.len().saturating_sub(1);
-    let mut bs: Vec<usize> = (0..nb).filter(|b| !skip_boundary(&inp.toks, *b)).collect();
+    let mut bs: Vec<usize> = (0..nb).filter(|b| !skip_boundary(&inp.toks, *b) && part.map_or(true, |(k, n)| b % n == k)).collect();
     if bs.len() > max_boundaries {
         rng.shuffle(&mut bs);
         bs.truncate(max_boundaries);
@@ -139,7 +150,7 @@ fn check_input(inp: &Input, forms: &[usize], max_boundaries: usize, rng: &mut Rn
                 continue;
             }
             // tight block comment must not glue into `/` or `*` neighbours, nor let two words run together — it separates tokens by itself
-            let text = join(&inp.toks, Some((b, sep)));
+            let text = join(&inp, Some((b, sep)));
             // guard: our own tokenizer must see the same token sequence in the transformed text
             let re = tok::tokenize(&text);
             if !re.clean || re.toks.len() != inp.toks.len() || re.toks.iter().zip(&inp.toks).any(|(a, b)| a.text(&text) != b.1) {
@@ -166,7 +177,7 @@ fn check_input(inp: &Input, forms: &[usize], max_boundaries: usize, rng: &mut Rn
             }
             if let Some(kind) = kind {
                 let fam = if fclass == "comment" { if sep.contains("/*") { "block-comment" } else { "line-comment" } } else { fclass };
-                let sig = if inp.origin.starts_with("G(") {
+                let sig = if inp.origin.starts_with("G(") || inp.origin.starts_with("T(") {
                     format!("c13|{kind}|{} {}|{fam}", tclass(lk, lt), tclass(rk, rt))
                 } else {
                     // real-world modules exercise notation outside the supported-notation grammar (information objects, MACRO,
@@ -184,12 +195,13 @@ fn check_input(inp: &Input, forms: &[usize], max_boundaries: usize, rng: &mut Rn
     }
 }
 
-fn join_multi(toks: &[(TKind, String)], seps: &[Option<&str>]) -> String {
+fn join_multi(inp: &Input, seps: &[Option<&str>]) -> String {
+    let toks = &inp.toks;
     let mut s = String::new();
     for (i, (_, t)) in toks.iter().enumerate() {
         s.push_str(t);
         if i + 1 < toks.len() {
-            s.push_str(seps[i].unwrap_or(" "));
+            s.push_str(seps[i].unwrap_or(inp.gaps.get(i).map_or(" ", |g| g.as_str())));
         }
     }
     s.push('\n');
@@ -199,7 +211,7 @@ fn join_multi(toks: &[(TKind, String)], seps: &[Option<&str>]) -> String {
 /// random subsets of boundaries, each with its own random form (mixed line endings, several comment kinds at once)
 fn check_multi(inp: &Input, n: usize, rng: &mut Rng, rep: &mut Report) {
     let cfg = Cfg::default_cfg();
-    let base_text = join(&inp.toks, None);
+    let base_text = join(&inp, None);
     let base = comp::rasn(&[base_text.clone()], &cfg);
     let (bstatus, bdigest) = digest(&base);
     if bstatus == "Panic" {
@@ -220,7 +232,7 @@ fn check_multi(inp: &Input, n: usize, rng: &mut Rng, rep: &mut Report) {
             }
             seps[b] = Some(sep);
         }
-        let text = join_multi(&inp.toks, &seps);
+        let text = join_multi(&inp, &seps);
         let re = tok::tokenize(&text);
         if !re.clean || re.toks.len() != inp.toks.len() || re.toks.iter().zip(&inp.toks).any(|(a, b)| a.text(&text) != b.1) {
             rep.count("transform_rejected_by_own_tokenizer", 1);
@@ -245,7 +257,7 @@ fn check_multi(inp: &Input, n: usize, rng: &mut Rng, rep: &mut Report) {
             let mut cur: Vec<Option<&str>> = seps.clone();
             let budget_ok = MINIMISED.fetch_add(1, std::sync::atomic::Ordering::Relaxed) < 8 && inp.toks.len() <= 1500;
             let violates = |sp: &[Option<&str>]| -> bool {
-                let t = join_multi(&inp.toks, sp);
+                let t = join_multi(&inp, sp);
                 let (st, d) = digest(&comp::rasn(&[t], &cfg));
                 let k = if st.split('/').next() != bstatus.split('/').next() {
                     Some(format!("status:{}->{}", bstatus.split('/').next().unwrap(), st.split('/').next().unwrap()))
@@ -294,7 +306,7 @@ fn check_multi(inp: &Input, n: usize, rng: &mut Rng, rep: &mut Report) {
             } else {
                 "multi-boundary".to_string()
             };
-            let min_text = join_multi(&inp.toks, &cur);
+            let min_text = join_multi(&inp, &cur);
             rep.violations.push(Violation {
                 sig: if inp.origin.starts_with("G(") { format!("c13|{kind}|{key}") } else { format!("c13|{kind}|corpus|multi-boundary") },
                 what: format!("{kind} after re-laying out {} boundaries (minimal set {}): baseline {bstatus}, after {status} [{}]", seps.iter().filter(|s| s.is_some()).count(), rest.len(), inp.origin),
@@ -311,7 +323,139 @@ fn g_input(seed: u64, idx: u64) -> Input {
     let set = gen::random_set(seed, 1300, idx, &o);
     let r = set.render();
     let lx = tok::tokenize(&r.text);
-    Input { origin: format!("G(seed={seed},idx={idx})"), toks: lx.toks.iter().map(|t| (t.kind.clone(), t.text(&r.text).to_string())).collect() }
+    Input { origin: format!("G(seed={seed},idx={idx})"), toks: lx.toks.iter().map(|t| (t.kind.clone(), t.text(&r.text).to_string())).collect(), gaps: vec![] }
+}
+
+/// Hand-written inputs for notation grammar G does not spell: IMPORTS clauses with several SymbolsFromModule (value
+/// references first, object identifiers, WITH SUCCESSORS), external references `Module.Type` / `Module.value`, EXPORTS,
+/// information object classes with WITH SYNTAX, objects, object sets and table constraints, parameterized types, the value
+/// notations, the constraint notations and the less common type notations. Every boundary of every template is tried.
+pub const TEMPLATES: [&str; 6] = [
+    // 0: module headers, IMPORTS / EXPORTS, external references
+    r#"Base-Mod {iso standard(0) 9999 base(1)} DEFINITIONS AUTOMATIC TAGS ::= BEGIN
+EXPORTS Flag, Length, limit;
+Flag ::= BOOLEAN
+Length ::= INTEGER (0..255)
+limit INTEGER ::= 5
+END
+Extra-Mod DEFINITIONS IMPLICIT TAGS EXTENSIBILITY IMPLIED ::= BEGIN
+EXPORTS ALL;
+Mark ::= ENUMERATED {low, high}
+top INTEGER ::= 9
+END
+Third-Mod DEFINITIONS EXPLICIT TAGS ::= BEGIN
+floor INTEGER ::= 1
+Cell ::= OCTET STRING
+END
+User-Mod DEFINITIONS EXPLICIT TAGS ::= BEGIN
+IMPORTS Flag, Length FROM Base-Mod {iso standard(0) 9999 base(1)} WITH SUCCESSORS
+top, Mark FROM Extra-Mod
+floor, Cell FROM Third-Mod;
+Rec ::= SEQUENCE {a Flag, b Length DEFAULT 5, c Mark OPTIONAL, d Base-Mod.Flag, e INTEGER (floor..top), f Third-Mod.Cell}
+v1 Base-Mod.Length ::= 7
+v2 INTEGER ::= Extra-Mod.top
+END
+"#,
+    // 1: information object classes, objects, object sets, table constraints
+    r#"Obj-Mod DEFINITIONS AUTOMATIC TAGS ::= BEGIN
+OPERATION ::= CLASS {&code INTEGER UNIQUE, &Arg OPTIONAL, &name PrintableString DEFAULT "op"} WITH SYNTAX {CODE &code [ARGUMENT &Arg] [NAMED &name]}
+add OPERATION ::= {CODE 1 ARGUMENT INTEGER NAMED "add"}
+neg OPERATION ::= {CODE 2 ARGUMENT BOOLEAN}
+Ops OPERATION ::= {add | neg, ...}
+Invoke ::= SEQUENCE {code OPERATION.&code ({Ops}), arg OPERATION.&Arg ({Ops}{@code}) OPTIONAL}
+PLAIN ::= CLASS {&id INTEGER UNIQUE, &Type}
+pa PLAIN ::= {&id 1, &Type NULL}
+PSet PLAIN ::= {pa}
+Holder ::= SEQUENCE {id PLAIN.&id ({PSet}), val PLAIN.&Type ({PSet}{@id})}
+END
+"#,
+    // 2: parameterized types and values
+    r#"Par-Mod DEFINITIONS AUTOMATIC TAGS ::= BEGIN
+Bounded {INTEGER:lo, INTEGER:hi} ::= INTEGER (lo..hi)
+Pair {First, Second} ::= SEQUENCE {first First, second Second OPTIONAL}
+List {Elem, INTEGER:max} ::= SEQUENCE (SIZE (1..max)) OF Elem
+Small ::= Bounded {0, 15}
+Both ::= Pair {BOOLEAN, Small}
+Some-List ::= List {Both, 4}
+END
+"#,
+    // 3: value notation
+    r#"Val-Mod DEFINITIONS AUTOMATIC TAGS ::= BEGIN
+Colour ::= ENUMERATED {red(0), green(1), ..., blue(5)}
+Bits ::= BIT STRING {first(0), last(7)}
+Count ::= INTEGER {none(0), many(100)}
+Ch ::= CHOICE {num INTEGER, text UTF8String, flag BOOLEAN}
+Rec ::= SEQUENCE {n INTEGER, s IA5String OPTIONAL, b BOOLEAN DEFAULT TRUE}
+Nums ::= SEQUENCE OF INTEGER
+v-int INTEGER ::= -42
+v-named Count ::= many
+v-bool BOOLEAN ::= FALSE
+v-null NULL ::= NULL
+v-enum Colour ::= blue
+v-bits Bits ::= {first, last}
+v-bstr BIT STRING ::= '1010'B
+v-hstr OCTET STRING ::= 'CAFE'H
+v-str IA5String ::= "say ""hi"" -- not a comment"
+v-oid OBJECT IDENTIFIER ::= {iso standard(0) 8571 2}
+v-roid RELATIVE-OID ::= {3 4 5}
+v-choice Ch ::= num:7
+v-rec Rec ::= {n 1, b FALSE}
+v-nums Nums ::= {1, 2, 3}
+Use ::= SEQUENCE {c Colour DEFAULT green, k Count DEFAULT none, x Bits DEFAULT {first}, r INTEGER DEFAULT v-int}
+END
+"#,
+    // 4: constraint notation
+    r#"Con-Mod DEFINITIONS AUTOMATIC TAGS ::= BEGIN
+A1 ::= INTEGER (1..10 | 20..30, ..., 40..50)
+A2 ::= INTEGER (0..100) (5..MAX)
+A3 ::= INTEGER (ALL EXCEPT 5)
+A4 ::= INTEGER (MIN..-1 UNION 1..MAX)
+A5 ::= INTEGER ((1..10) INTERSECTION (5..20))
+A6 ::= INTEGER (0..7, ...)
+S1 ::= IA5String (SIZE (1..8)) (FROM ("a".."f" | "0".."9"))
+S2 ::= PrintableString (FROM ("AB") ^ SIZE (2))
+S3 ::= OCTET STRING (SIZE (4 | 8, ...))
+S4 ::= OCTET STRING (CONTAINING A1)
+S5 ::= UTF8String (PATTERN "[a-z]+")
+L1 ::= SEQUENCE (SIZE (0..3)) OF A1
+L2 ::= SET SIZE (2) OF BOOLEAN
+L3 ::= SEQUENCE OF INTEGER (0..9)
+R1 ::= SEQUENCE {a INTEGER OPTIONAL, b BOOLEAN OPTIONAL}
+R2 ::= R1 (WITH COMPONENTS {..., a PRESENT, b ABSENT})
+R3 ::= SEQUENCE OF R1 (WITH COMPONENT (WITH COMPONENTS {a (0..5)}))
+R4 ::= A1 (INCLUDES A2)
+END
+"#,
+    // 5: type notation
+    r#"Typ-Mod DEFINITIONS IMPLICIT TAGS ::= BEGIN
+T1 ::= [APPLICATION 3] EXPLICIT INTEGER
+T2 ::= [PRIVATE 4] IMPLICIT OCTET STRING
+T3 ::= [5] BOOLEAN
+T4 ::= [UNIVERSAL 30] IMPLICIT BMPString
+Ch ::= CHOICE {one [0] INTEGER, two [1] BOOLEAN, ..., three [2] NULL}
+Sel ::= one < Ch
+Base ::= SEQUENCE {x [0] INTEGER, y [1] BOOLEAN OPTIONAL}
+Ext ::= SEQUENCE {z [7] NULL, COMPONENTS OF Base}
+Grp ::= SEQUENCE {r [0] INTEGER, ..., [[2: g1 [1] BOOLEAN, g2 [2] NULL OPTIONAL]], [[h1 [3] INTEGER]]}
+En ::= ENUMERATED {a(-1), b, ..., c(10), d}
+St ::= SET {p [0] INTEGER, q [1] UTF8String DEFAULT "q"}
+Many ::= SEQUENCE {t1 [0] UTCTime, t2 [1] GeneralizedTime, o [2] OBJECT IDENTIFIER, ro [3] RELATIVE-OID, re [4] REAL, ex [5] EXTERNAL, ep [6] EMBEDDED PDV, n [8] NumericString, v [9] VisibleString, g [10] GeneralString, an [15] ANY}
+Inner ::= SEQUENCE {anon [0] SEQUENCE {deep [0] CHOICE {l [0] NULL, m [1] SET OF INTEGER}}, e [1] ENUMERATED {u, w}, bs [2] BIT STRING {flag(0)} (SIZE (8))}
+END
+"#,
+];
+
+fn template_input(i: usize) -> Option<Input> {
+    let s = TEMPLATES[i];
+    let lx = tok::tokenize(s);
+    if !lx.clean {
+        return None;
+    }
+    if !lx.comments.is_empty() {
+        return None;
+    }
+    let gaps = lx.toks.windows(2).map(|w| s[w[0].end..w[1].start].to_string()).collect();
+    Some(Input { origin: format!("T(template={i})"), toks: lx.toks.iter().map(|t| (t.kind.clone(), t.text(s).to_string())).collect(), gaps })
 }
 
 fn corpus_input(c: &Corpus, i: usize) -> Option<Input> {
@@ -320,7 +464,7 @@ fn corpus_input(c: &Corpus, i: usize) -> Option<Input> {
     if !lx.clean {
         return None;
     }
-    Some(Input { origin: name.clone(), toks: lx.toks.iter().map(|t| (t.kind.clone(), t.text(s).to_string())).collect() })
+    Some(Input { origin: name.clone(), toks: lx.toks.iter().map(|t| (t.kind.clone(), t.text(s).to_string())).collect(), gaps: vec![] })
 }
 
 pub fn run(ctx: &Ctx) -> Report {
@@ -328,7 +472,7 @@ pub fn run(ctx: &Ctx) -> Report {
         "exploration",
         "inputs: grammar-G module sets re-tokenised by the harness's own X.680 tokenizer (all boundaries when <= budget, else a random subset) and real-world corpus modules (only those whose single-space re-join reproduces the original outcome; sampled boundaries); transformation: the separator at ONE token boundary replaced by tab / LF / CRLF / mixed blanks / nothing (only where the two tokens stay separable) / `-- c` to end of line (LF and CRLF) / `-- c --` / `/* c */` (spaced and tight) / nested block comment / multi-line block comment / comments containing quotes, braces, keywords, non-ASCII. Additionally N random multi-boundary re-layouts per input (each boundary independently re-laid with a random form, density 1/1..1/6: mixed line endings and comment kinds). Verdict: same Ok/Err status, same number of warnings, identical token-normalised bindings with #[doc] removed. Non-trivial = a re-layout that our tokenizer confirms to have the same token sequence; distinct by text.",
     );
-    rep.must_observe = vec!["relayouts[multi-boundary]".into(), "relayouts[ws]".into(), "relayouts[comment]".into(), "relayouts[none]".into(), "baseline[Ok]".into()];
+    rep.must_observe = vec!["templates_used".into(), "relayouts[multi-boundary]".into(), "relayouts[ws]".into(), "relayouts[comment]".into(), "relayouts[none]".into(), "baseline[Ok]".into()];
     rep.assumptions = vec!["harness tokenizer (tok.rs) decides token boundaries; `-` directly before a number is not separated".into()];
     if let Some(path) = &ctx.replay {
         let doc: serde_json::Value = serde_json::from_str(&std::fs::read_to_string(path).expect("replay")).expect("json");
@@ -346,8 +490,8 @@ pub fn run(ctx: &Ctx) -> Report {
         return rep;
     }
     let corpus = load_corpus();
-    let n_g = ctx.pick(90u64, 3000);
-    let n_c = ctx.pick(50usize, 300);
+    let n_g = ctx.pick(90u64, 1500);
+    let n_c = ctx.pick(50usize, 200);
     let quick_forms: Vec<usize> = vec![0, 1, 2, 4, 6, 7, 9, 10, 13, 14];
     let all_forms: Vec<usize> = (0..FORMS.len()).collect();
     let forms = if ctx.quick() { quick_forms } else { all_forms };
@@ -366,6 +510,24 @@ pub fn run(ctx: &Ctx) -> Report {
         }
         acc.with(|r| r.merge(local));
     });
+    // hand-written templates: every boundary, every form of the tier
+    let tmpl_jobs: Vec<(usize, usize)> = (0..TEMPLATES.len()).flat_map(|t| (0..8).map(move |part| (t, part))).collect();
+    par_for(tmpl_jobs.len() as u64, |k| {
+        let (t, part) = tmpl_jobs[k as usize];
+        let mut local = Report::default();
+        let mut rng = Rng::for_case(seed, 133, k);
+        match template_input(t) {
+            Some(inp) => {
+                check_input_part(&inp, &forms, usize::MAX, &mut rng, &mut local, Some((part, 8)));
+                if part == 0 {
+                    local.count("templates_used", 1);
+                    check_multi(&inp, n_multi, &mut rng, &mut local);
+                }
+            }
+            None => local.inconclusive.push(format!("template {t} is not tokenised cleanly by the harness tokenizer")),
+        }
+        acc.with(|r| r.merge(local));
+    });
     // corpus: spread over sizes (files up to 40 kB), deterministic choice by seed
     let eligible: Vec<usize> = (0..corpus.files.len()).filter(|i| corpus.files[*i].1.len() <= 40_000).collect();
     let mut pick = eligible.clone();
@@ -377,7 +539,7 @@ pub fn run(ctx: &Ctx) -> Report {
         if let Some(inp) = corpus_input(&corpus, pick[k as usize]) {
             // use the file only if the single-space re-join reproduces the original outcome
             let orig = comp::rasn(&[corpus.files[pick[k as usize]].1.clone()], &Cfg::default_cfg());
-            let rej = comp::rasn(&[join(&inp.toks, None)], &Cfg::default_cfg());
+            let rej = comp::rasn(&[join(&inp, None)], &Cfg::default_cfg());
             let (so, d_o) = digest(&orig);
             let (sr, d_r) = digest(&rej);
             if so == sr && d_o == d_r && inp.toks.len() >= 2 {
